@@ -27,7 +27,7 @@ import (
 // every write path. Client-boundary oracle: the harness knows the true bytes,
 // the declared digest and the wire encoding it produced itself.
 
-var c01Paths = []string{"http-put", "http-put-zstd", "batch", "batch-zstd", "bs-blobs", "bs-zstd", "splice", "splice-nodigest", "ac-inline-stdout", "ac-inline-stderr", "ac-inline-file", "fetchblob", "fetchblob-nolen"}
+var c01Paths = []string{"http-put", "http-put-zstd", "batch", "batch-zstd", "bs-blobs", "bs-zstd", "splice", "splice-nodigest", "ac-inline-stdout", "ac-inline-stderr", "ac-inline-file", "ac-inline-nodigest", "fetchblob", "fetchblob-nolen", "fetchblob-nosri"}
 
 // corruption kinds; which apply where is decided in c01Applicable.
 var c01Corruptions = []string{"none", "flip", "trunc1", "trunchalf", "trunc0", "ext1", "extbig", "size+1", "size-1", "size0", "sizehuge",
@@ -36,7 +36,33 @@ var c01Corruptions = []string{"none", "flip", "trunc1", "trunchalf", "trunc0", "
 	"bad-compressor", "abort-cancel", "abort-noFinish", "abort-tcpclose",
 	"splice-missing-chunk", "splice-reordered", "splice-sizes-not-summing",
 	// the claimed HASH is already stored (with its true size n) when the bad upload arrives; the claim states another size
-	"pre:size+1", "pre:size-1", "pre:ext1+size", "pre:trunc1+size"}
+	"pre:size+1", "pre:size-1", "pre:ext1+size", "pre:trunc1+size",
+	// the claimed DIGEST (h,n) is already stored when an upload naming exactly (h,n) arrives with other bytes
+	"pre:flip", "pre:other-chunks", "pre:missing-chunk",
+	// Remote Asset origins: several URIs of which only the last is good; origin closing the connection mid-body; non-2xx origin
+	"origin-badfirst", "origin-midclose", "origin-500",
+	// zstd PUT whose only stated length is the Content-Length of the compressed body (weak rule)
+	"no-xsize"}
+
+// c01Shapes: spellings of one and the same upload request on a path ("" = the path has only one).
+func c01Shapes(path string) []string {
+	switch path {
+	case "http-put":
+		return []string{"bare", "instance", "chunked", "xsize", "ce-identity"}
+	case "http-put-zstd":
+		return []string{"bare", "instance", "chunked"}
+	case "bs-blobs", "bs-zstd":
+		return []string{"bare", "instance", "metadata", "instance+metadata"}
+	}
+	return nil
+}
+
+// c01ShortcutPath: paths on which an upload naming an already stored digest may be answered OK without its
+// bytes being looked at (ByteStream.Write: REAPI / property C16; SpliceBlob and FetchBlob: cache hit). On these the
+// pre:flip family carries only the weak acknowledgement rule; the stored blob must stay untouched everywhere.
+func c01ShortcutPath(p string) bool {
+	return strings.HasPrefix(p, "bs-") || strings.HasPrefix(p, "splice") || strings.HasPrefix(p, "fetchblob")
+}
 
 func c01IsZstdPath(p string) bool { return strings.HasSuffix(p, "zstd") }
 
@@ -45,6 +71,8 @@ func c01Applicable(path, corr string) bool {
 	switch {
 	case strings.HasPrefix(corr, "z-"):
 		return z
+	case corr == "no-xsize":
+		return path == "http-put-zstd"
 	case corr == "bad-compressor":
 		return path == "http-put-zstd" || path == "batch-zstd" || path == "bs-zstd"
 	case corr == "abort-cancel" || corr == "abort-noFinish":
@@ -53,9 +81,22 @@ func c01Applicable(path, corr string) bool {
 		return strings.HasPrefix(path, "http-put")
 	case strings.HasPrefix(corr, "splice-"):
 		return path == "splice" || path == "splice-nodigest" && corr == "splice-missing-chunk"
+	case strings.HasPrefix(corr, "origin-"):
+		if path == "fetchblob-nosri" {
+			return corr != "origin-500" // without a checksum there is no claim a non-2xx body could contradict
+		}
+		return strings.HasPrefix(path, "fetchblob")
+	case corr == "pre:other-chunks" || corr == "pre:missing-chunk":
+		return path == "splice"
+	case corr == "pre:flip":
+		switch path {
+		case "splice", "splice-nodigest", "fetchblob-nosri", "ac-inline-nodigest":
+			return false // no caller-supplied digest next to caller-supplied bytes
+		}
+		return true
 	case strings.HasPrefix(corr, "pre:"):
 		switch path {
-		case "fetchblob", "fetchblob-nolen", "splice-nodigest":
+		case "fetchblob", "fetchblob-nolen", "fetchblob-nosri", "splice-nodigest", "ac-inline-nodigest":
 			return false // no declared size on these paths
 		case "splice":
 			return corr == "pre:size+1" || corr == "pre:size-1"
@@ -65,8 +106,8 @@ func c01Applicable(path, corr string) bool {
 	switch path {
 	case "splice":
 		return corr == "none" || corr == "size+1" || corr == "size-1" || corr == "hashother" || strings.HasPrefix(corr, "hash-") || corr == "sizehuge"
-	case "splice-nodigest":
-		return corr == "none"
+	case "splice-nodigest", "ac-inline-nodigest", "fetchblob-nosri":
+		return corr == "none" // the server computes the digest: there is no claim to corrupt
 	case "ac-inline-stdout", "ac-inline-stderr", "ac-inline-file":
 		return corr == "none" || corr == "flip" || corr == "trunc1" || corr == "ext1" || corr == "size+1" || corr == "size-1" || corr == "hashother"
 	case "fetchblob", "fetchblob-nolen":
@@ -86,6 +127,7 @@ type c01Case struct {
 	Impl    string
 	Size    int
 	Content string
+	Shape   string `json:",omitempty"` // request spelling; "" = rotated over c01Shapes(Path) by ID and seed
 }
 
 type c01Result struct {
@@ -101,8 +143,12 @@ type c01Result struct {
 	// for paths where the server computes the digest: the digest it answered
 	answeredHash string
 	answeredSize int64
-	noProbe      bool // malformed hash: probes are not expressible
-	pre          bool // the claimed hash was stored beforehand with its true size
+	noProbe      bool   // malformed hash: probes are not expressible
+	pre          bool   // the claimed hash was stored beforehand with its true size
+	preSame      bool   // pre:flip family: the claim names exactly the stored digest (h,n)
+	probeHash    string // digest to probe when it differs from the claimed spelling (hash-upper)
+	shape        string // request shape used (instance prefix, trailing metadata, chunked, ...)
+	inconclusive string // the harness's own watchdog fired: no verdict
 }
 
 type c01Env struct {
@@ -116,8 +162,10 @@ type c01Env struct {
 }
 
 type originEntry struct {
-	body  []byte
-	nolen bool
+	body     []byte
+	nolen    bool
+	status   int  // 0 = 200
+	midclose bool // announce the full body, deliver a part of it, then drop the connection
 }
 
 func (e *c01Env) originHandler(w http.ResponseWriter, r *http.Request) {
@@ -128,10 +176,26 @@ func (e *c01Env) originHandler(w http.ResponseWriter, r *http.Request) {
 		http.NotFound(w, r)
 		return
 	}
+	status := ent.status
+	if status == 0 {
+		status = 200
+	}
+	if ent.midclose {
+		w.Header().Set("Content-Type", "application/octet-stream")
+		if !ent.nolen {
+			w.Header().Set("Content-Length", fmt.Sprint(len(ent.body)))
+		}
+		w.WriteHeader(status)
+		_, _ = w.Write(ent.body[:len(ent.body)/2])
+		if f, ok := w.(http.Flusher); ok {
+			f.Flush()
+		}
+		panic(http.ErrAbortHandler) // net/http drops the connection without finishing the body / the chunked framing
+	}
 	if ent.nolen {
 		// chunked transfer: no Content-Length
 		w.Header().Set("Content-Type", "application/octet-stream")
-		w.WriteHeader(200)
+		w.WriteHeader(status)
 		if f, ok := w.(http.Flusher); ok {
 			f.Flush()
 		}
@@ -139,6 +203,7 @@ func (e *c01Env) originHandler(w http.ResponseWriter, r *http.Request) {
 		return
 	}
 	w.Header().Set("Content-Length", fmt.Sprint(len(ent.body)))
+	w.WriteHeader(status)
 	_, _ = w.Write(ent.body)
 }
 
@@ -218,7 +283,12 @@ func (e *c01Env) runCase(cs c01Case) c01Result {
 			return c01Result{skip: true}
 		}
 		res.pre = true
+		switch cs.Corr {
+		case "pre:flip", "pre:other-chunks", "pre:missing-chunk":
+			res.preSame = true
+		}
 	}
+	var opErr error // last gRPC error of the upload itself (watchdog detection)
 	// 1. declared digest corruptions
 	switch cs.Corr {
 	case "pre:ext1+size":
@@ -252,8 +322,12 @@ func (e *c01Env) runCase(cs c01Case) c01Result {
 		res.hash = res.hash[:63]
 		res.valid, res.noProbe = false, true
 	case "hash-upper":
+		// The statement demands a refusal for a WRONG hash; an upper-case spelling of the right hash is at most
+		// unusual. A build that normalises it and stores the blob correctly is within the statement: weak rule only
+		// (ack => stored correctly under the digest), probed under the canonical spelling.
+		res.probeHash = res.hash
 		res.hash = strings.ToUpper(res.hash)
-		res.valid, res.noProbe = false, true
+		res.valid, res.weak = false, true
 		if res.hash == strings.ToLower(res.hash) {
 			return c01Result{skip: true}
 		}
@@ -268,6 +342,13 @@ func (e *c01Env) runCase(cs c01Case) c01Result {
 		data, _ = corruptData(rng, B, "ext1")
 	case "pre:trunc1+size":
 		data, _ = corruptData(rng, B, "trunc1")
+	case "pre:flip":
+		data, _ = corruptData(rng, B, "flip")
+		res.valid = false
+		res.weak = c01ShortcutPath(cs.Path)
+	case "pre:other-chunks", "pre:missing-chunk":
+		res.valid = false
+		res.weak = true
 	}
 	switch cs.Corr {
 	case "flip", "trunc1", "trunchalf", "trunc0", "ext1", "extbig":
@@ -342,6 +423,31 @@ func (e *c01Env) runCase(cs c01Case) c01Result {
 		} else if size != int64(len(payload)) {
 			hdr["X-Digest-SizeBytes"] = fmt.Sprint(size)
 		}
+		// request shapes: the same upload spelled differently carries the same obligation
+		url := "/cas/" + hash
+		shapes := c01Shapes(cs.Path)
+		res.shape = cs.Shape
+		if res.shape == "" {
+			res.shape = shapes[(cs.ID+int(e.r.Seed&0xffff))%len(shapes)]
+		}
+		if cs.Corr == "abort-tcpclose" {
+			res.shape = "bare"
+		}
+		switch res.shape {
+		case "instance":
+			url = "/" + x1Instances[cs.ID/len(shapes)%len(x1Instances)] + url
+		case "chunked", "xsize":
+			hdr["X-Digest-SizeBytes"] = fmt.Sprint(size)
+		case "ce-identity":
+			hdr["Content-Encoding"] = "identity"
+		}
+		if cs.Corr == "no-xsize" {
+			// zstd body whose only stated length is the Content-Length of the compressed stream: whether that is a
+			// well-formed declaration is open; weak rule only
+			delete(hdr, "X-Digest-SizeBytes")
+			res.shape = "bare"
+			res.weak = true
+		}
 		if cs.Corr == "bad-compressor" {
 			hdr["Content-Encoding"] = "gzip"
 			res.valid = false
@@ -368,7 +474,13 @@ func (e *c01Env) runCase(cs c01Case) c01Result {
 			srv.Settle(20 * time.Second)
 			return res
 		}
-		h := srv.HTTPPut("/cas/"+hash, payload, hdr)
+		var h lib.HTTPResult
+		if res.shape == "chunked" {
+			h = x1HTTPPutChunked(srv, url, payload, hdr)
+		} else {
+			h = srv.HTTPPut(url, payload, hdr)
+		}
+		opErr = h.Err
 		res.acked = h.Err == nil && h.Status == 200
 		res.status = fmt.Sprintf("http %d %v", h.Status, h.Err)
 	case "batch", "batch-zstd":
@@ -380,7 +492,8 @@ func (e *c01Env) runCase(cs c01Case) c01Result {
 			req.Compressor = pb.Compressor_DEFLATE
 			res.valid = false
 		}
-		resp, err := srv.CAS.BatchUpdateBlobs(ctx, &pb.BatchUpdateBlobsRequest{Requests: []*pb.BatchUpdateBlobsRequest_Request{req}})
+		resp, err := srv.CAS.BatchUpdateBlobs(ctx, &pb.BatchUpdateBlobsRequest{Requests: []*pb.BatchUpdateBlobsRequest_Request{req}, InstanceName: []string{"", x1Instances[cs.ID%len(x1Instances)]}[cs.ID%2]})
+		opErr = err
 		if err != nil {
 			res.status = "rpc " + lib.Code(err).String()
 		} else if len(resp.Responses) != 1 {
@@ -398,6 +511,18 @@ func (e *c01Env) runCase(cs c01Case) c01Result {
 		if cs.Corr == "bad-compressor" {
 			name = strings.Replace(name, "/zstd/", "/gzip/", 1)
 			res.valid = false
+		}
+		// request shapes: [{instance}/]uploads/{uuid}/blobs/{hash}/{size}[/{optional metadata}]
+		bsShapes := c01Shapes(cs.Path)
+		res.shape = cs.Shape
+		if res.shape == "" {
+			res.shape = bsShapes[(cs.ID+int(e.r.Seed&0xffff))%len(bsShapes)]
+		}
+		if strings.Contains(res.shape, "instance") {
+			name = x1Instances[cs.ID/len(bsShapes)%len(x1Instances)] + "/" + name
+		}
+		if strings.Contains(res.shape, "metadata") {
+			name += []string{"/foo.txt", "/some/deeper/path", "/0"}[cs.ID/len(bsShapes)%3]
 		}
 		chunk := []int{0, 1 + rng.IntN(4096), 64 * lib.KiB, lib.MiB}[rng.IntN(4)]
 		parts := lib.Chunk(payload, chunk)
@@ -423,10 +548,12 @@ func (e *c01Env) runCase(cs c01Case) c01Result {
 			res.valid = false
 			part := payload[:1+rng.IntN(len(payload)-1)]
 			_, err := srv.BSWriteMsgs(ctx, []*bspb.WriteRequest{{ResourceName: name, Data: part}})
+			opErr = err
 			res.acked = err == nil
 			res.status = "bs " + lib.Code(err).String()
 		default:
 			_, err := srv.BSWrite(ctx, name, payload, chunk)
+			opErr = err
 			res.acked = err == nil
 			res.status = "bs " + lib.Code(err).String()
 		}
@@ -441,6 +568,11 @@ func (e *c01Env) runCase(cs c01Case) c01Result {
 		if len(B) < 16*nchunks {
 			nchunks = 2
 		}
+		src := B
+		if cs.Corr == "pre:other-chunks" {
+			// chunks of another content of the same length, all of them stored, under the digest of the stored blob B
+			src = lib.GenBlob(rng, len(B), "random", tag+"-other")
+		}
 		var chunks [][]byte
 		cuts := []int{0}
 		for i := 1; i < nchunks; i++ {
@@ -450,7 +582,7 @@ func (e *c01Env) runCase(cs c01Case) c01Result {
 		sortInts(cuts)
 		for i := 0; i+1 < len(cuts); i++ {
 			if cuts[i+1]-cuts[i] >= 16 || i+2 == len(cuts) {
-				chunks = append(chunks, B[cuts[i]:cuts[i+1]])
+				chunks = append(chunks, src[cuts[i]:cuts[i+1]])
 			} else {
 				cuts[i+1] = cuts[i] // merge a too-short piece into the next one
 			}
@@ -465,7 +597,7 @@ func (e *c01Env) runCase(cs c01Case) c01Result {
 		for i, c := range chunks {
 			d := lib.DigestOf(c)
 			cds = append(cds, d)
-			if cs.Corr == "splice-missing-chunk" && i == len(chunks)-1 {
+			if (cs.Corr == "splice-missing-chunk" || cs.Corr == "pre:missing-chunk") && i == len(chunks)-1 {
 				continue
 			}
 			if err := srv.Cache.Put(ctx, cache.CAS, d.Hash, d.SizeBytes, bytes.NewReader(c)); err != nil {
@@ -490,15 +622,23 @@ func (e *c01Env) runCase(cs c01Case) c01Result {
 			req.BlobDigest = &pb.Digest{Hash: hash, SizeBytes: size}
 		}
 		resp, err := srv.CAS.SpliceBlob(ctx, req)
+		opErr = err
 		res.acked = err == nil
 		res.status = "splice " + lib.Code(err).String()
 		if err == nil && resp.GetBlobDigest() != nil {
 			res.answeredHash, res.answeredSize = resp.BlobDigest.Hash, resp.BlobDigest.SizeBytes
 		}
-	case "ac-inline-stdout", "ac-inline-stderr", "ac-inline-file":
+	case "ac-inline-stdout", "ac-inline-stderr", "ac-inline-file", "ac-inline-nodigest":
 		ar := &pb.ActionResult{ExitCode: 0}
 		d := &pb.Digest{Hash: hash, SizeBytes: size}
 		switch cs.Path {
+		case "ac-inline-nodigest":
+			// inline bytes without a digest: the server computes it; an OK answer makes sha256(bytes) present
+			if cs.ID%2 == 0 {
+				ar.StdoutRaw = payload
+			} else {
+				ar.StderrRaw = payload
+			}
 		case "ac-inline-stdout":
 			ar.StdoutRaw, ar.StdoutDigest = payload, d
 		case "ac-inline-stderr":
@@ -510,16 +650,52 @@ func (e *c01Env) runCase(cs c01Case) c01Result {
 			return c01Result{skip: true}
 		}
 		_, err := srv.AC.UpdateActionResult(ctx, &pb.UpdateActionResultRequest{ActionDigest: &pb.Digest{Hash: lib.RandHash(rng), SizeBytes: 42}, ActionResult: ar})
+		opErr = err
 		res.acked = err == nil
 		res.status = "update-ar " + lib.Code(err).String()
-	case "fetchblob", "fetchblob-nolen":
+	case "fetchblob", "fetchblob-nolen", "fetchblob-nosri":
 		p := "/blob/" + tag
+		nolen := cs.Path == "fetchblob-nolen" || cs.Path == "fetchblob-nosri" && cs.ID%2 == 0
+		ent := originEntry{body: payload, nolen: nolen}
+		uris := []string{e.origin.URL + p}
+		var extra []string
+		switch cs.Corr {
+		case "origin-midclose":
+			// the origin announces the whole body, delivers half of it and drops the connection: a stream aborted part-way
+			if len(payload) < 2 {
+				return c01Result{skip: true}
+			}
+			ent.midclose = true
+			res.valid = false
+		case "origin-500":
+			// a non-2xx answer whose body is not the blob named by the checksum
+			ent.status = 500
+			ent.body = append([]byte("internal error of the origin "), payload[:min(len(payload), 64)]...)
+			res.valid = false
+		case "origin-badfirst":
+			// several URIs: a missing one, (with a checksum) one serving other bytes, then the good one
+			bad := []string{e.origin.URL + "/missing/" + tag}
+			if cs.Path != "fetchblob-nosri" {
+				wp := p + "-wrong"
+				wrong, _ := corruptData(rng, payload, "flip")
+				e.omu.Lock()
+				e.obody[wp] = originEntry{body: wrong, nolen: nolen}
+				e.omu.Unlock()
+				extra = append(extra, wp)
+				bad = append(bad, e.origin.URL+wp)
+			}
+			uris = append(bad, uris...)
+		}
 		e.omu.Lock()
-		e.obody[p] = originEntry{body: payload, nolen: cs.Path == "fetchblob-nolen"}
+		e.obody[p] = ent
 		e.omu.Unlock()
-		raw, _ := hex.DecodeString(hash)
-		req := &asset.FetchBlobRequest{Uris: []string{e.origin.URL + p}, Qualifiers: []*asset.Qualifier{{Name: "checksum.sri", Value: "sha256-" + base64.StdEncoding.EncodeToString(raw)}}}
+		req := &asset.FetchBlobRequest{Uris: uris}
+		if cs.Path != "fetchblob-nosri" {
+			raw, _ := hex.DecodeString(hash)
+			req.Qualifiers = []*asset.Qualifier{{Name: "checksum.sri", Value: "sha256-" + base64.StdEncoding.EncodeToString(raw)}}
+		}
 		resp, err := srv.Asset.FetchBlob(ctx, req)
+		opErr = err
 		if err != nil {
 			res.status = "fetch rpc " + lib.Code(err).String()
 		} else {
@@ -529,6 +705,9 @@ func (e *c01Env) runCase(cs c01Case) c01Result {
 			if res.acked && resp.BlobDigest != nil {
 				res.answeredHash, res.answeredSize = resp.BlobDigest.Hash, resp.BlobDigest.SizeBytes
 			}
+			if res.acked && resp.BlobDigest == nil && cs.Path == "fetchblob-nosri" {
+				res.answeredHash = "(no digest in the answer)"
+			}
 		}
 		// the declared size for this path is the true length of what the origin serves
 		if cs.Corr == "trunc1" || cs.Corr == "ext1" || cs.Corr == "flip" {
@@ -536,7 +715,13 @@ func (e *c01Env) runCase(cs c01Case) c01Result {
 		}
 		e.omu.Lock()
 		delete(e.obody, p)
+		for _, x := range extra {
+			delete(e.obody, x)
+		}
 		e.omu.Unlock()
+	}
+	if x1IsWatchdog(ctx, opErr) {
+		res.inconclusive = fmt.Sprintf("watchdog context expired during the upload itself (%s)", res.status)
 	}
 	_ = B
 	return res
@@ -560,6 +745,28 @@ type c01After struct {
 
 func (e *c01Env) judge(cs c01Case, res c01Result, B []byte) {
 	r := e.r
+	if res.inconclusive != "" {
+		r.Count("inconclusive.watchdog")
+		r.Inconclusive(fmt.Sprintf("C01 case %d (%s/%s/%s): %s", cs.ID, cs.Path, cs.Storage, cs.Corr, res.inconclusive))
+		return
+	}
+	inconclusive := func(where string) {
+		r.Count("inconclusive.watchdog")
+		r.Inconclusive(fmt.Sprintf("C01 case %d (%s/%s/%s): watchdog context expired during %s", cs.ID, cs.Path, cs.Storage, cs.Corr, where))
+	}
+	ph := res.hash // spelling under which the digest is probed
+	if res.probeHash != "" {
+		ph = res.probeHash
+	}
+	if res.shape != "" {
+		r.Count("shape." + cs.Path + "." + res.shape)
+	}
+	if res.preSame && cs.Size >= 16 {
+		// the blob stored before the bad upload must also survive the re-opens
+		e.omu.Lock()
+		e.after = append(e.after, c01After{cs: cs, hash: lib.Sha256Hex(B), size: int64(len(B)), acked: true, B: B})
+		e.omu.Unlock()
+	}
 	if !res.noProbe && cs.Size >= 16 && !res.weak && !res.pre {
 		e.omu.Lock()
 		if len(e.after) < 4000 {
@@ -572,7 +779,7 @@ func (e *c01Env) judge(cs c01Case, res c01Result, B []byte) {
 		e.omu.Unlock()
 	}
 	key := fmt.Sprintf("C01:%s:%s:%s", cs.Path, cs.Storage, cs.Corr)
-	detail := map[string]any{"case": cs, "declared_hash": res.hash, "declared_size": res.size, "status": res.status, "valid": res.valid, "weak": res.weak,
+	detail := map[string]any{"case": cs, "declared_hash": res.hash, "declared_size": res.size, "status": res.status, "valid": res.valid, "weak": res.weak, "shape": res.shape,
 		"replay_note": "content = lib.GenBlob(PCG(seed*7919+case.ID, 0xC01), Size, Content, tag)"}
 	r.Eval()
 	r.Distinct(cs.Path, cs.Storage, cs.Impl, cs.Corr, lib.SizeClassName(cs.Size))
@@ -591,15 +798,42 @@ func (e *c01Env) judge(cs c01Case, res c01Result, B []byte) {
 	if res.noProbe {
 		return
 	}
+	if res.preSame {
+		// The upload named exactly the stored digest (h,n) but carried other bytes (or other / missing chunks).
+		// Whatever the answer was, the blob stored under (h,n) must be untouched - also once pending file
+		// deletions have been carried out.
+		lib.WaitEvictionsDrained(e.srv.Cache, 5*time.Second)
+		time.Sleep(time.Millisecond)
+		ctx, cancel := lib.Ctx()
+		defer cancel()
+		p := e.srv.ProbeCAS(res.hash, res.size)
+		got, rerr := e.srv.BSRead(ctx, lib.ResBlobs(res.hash, res.size), 0, 0)
+		if x1ProbeWatchdog(p.Errs) || x1IsWatchdog(ctx, rerr) {
+			inconclusive("the probe of the stored blob")
+			return
+		}
+		r.Count("pre." + cs.Path + "." + cs.Corr + "." + map[bool]string{true: "ack", false: "refused"}[res.acked])
+		detail["probe"] = map[string]any{"findmissing_present": p.FindMissingPresent, "head": p.HeadStatus, "get": p.GetStatus, "get_len": len(p.GetBody), "bsread_err": fmt.Sprint(rerr), "bsread_len": len(got), "errs": p.Errs}
+		if !(p.FindMissingPresent && p.HeadStatus == 200 && p.GetStatus == 200 && bytes.Equal(p.GetBody, B) && rerr == nil && bytes.Equal(got, B)) {
+			r.Violation(key+":stored-blob-damaged", fmt.Sprintf("upload (%s) of other bytes under the already stored digest (%s,%d) damaged the stored blob: findmissing=%v head=%d get=%d (%d bytes, equal=%v) bytestream=%v (%d bytes)",
+				res.status, res.hash, res.size, p.FindMissingPresent, p.HeadStatus, p.GetStatus, len(p.GetBody), bytes.Equal(p.GetBody, B), rerr, len(got)), detail)
+		}
+		return
+	}
 	if res.pre {
 		// the claimed digest (h, declared size) must not have become present, and the blob stored before under
 		// (h, n) must be untouched. HEAD/GET of /cas/h carry no size and answer for the stored blob, so the claim
 		// is probed through the size-stating paths only.
+		lib.WaitEvictionsDrained(e.srv.Cache, 5*time.Second)
 		ctx, cancel := lib.Ctx()
 		defer cancel()
 		miss, err := e.srv.FindMissing(ctx, &pb.Digest{Hash: res.hash, SizeBytes: res.size}, lib.DigestOf(B))
 		_, rerr := e.srv.BSRead(ctx, lib.ResBlobs(res.hash, res.size), 0, 0)
 		get := e.srv.HTTPGet("/cas/"+res.hash, nil)
+		if x1IsWatchdog(ctx, err) || x1IsWatchdog(ctx, rerr) || x1IsWatchdog(nil, get.Err) {
+			inconclusive("the probe of the claimed digest")
+			return
+		}
 		detail["probe"] = map[string]any{"findmissing": fmt.Sprint(miss), "findmissing_err": fmt.Sprint(err), "bsread_claimed_err": fmt.Sprint(rerr), "get": get.Status}
 		claimedMissing, trueMissing := false, false
 		for _, d := range miss {
@@ -623,7 +857,11 @@ func (e *c01Env) judge(cs c01Case, res c01Result, B []byte) {
 		return
 	}
 	// post-state probe of the claimed digest through three independent read paths
-	p := e.srv.ProbeCAS(res.hash, res.size)
+	p := e.srv.ProbeCAS(ph, res.size)
+	if x1ProbeWatchdog(p.Errs) {
+		inconclusive("the presence probe")
+		return
+	}
 	present := p.FindMissingPresent || p.HeadStatus == 200 || p.GetStatus == 200
 	allPresent := p.FindMissingPresent && p.HeadStatus == 200 && p.GetStatus == 200
 	detail["probe"] = map[string]any{"findmissing_present": p.FindMissingPresent, "head": p.HeadStatus, "get": p.GetStatus, "errs": p.Errs}
@@ -638,16 +876,30 @@ func (e *c01Env) judge(cs c01Case, res c01Result, B []byte) {
 				// path without an already-exists shortcut, let pending deletions drain, and read once more.
 				var again bool
 				if cs.ID%2 == 0 {
-					again = e.srv.HTTPPut("/cas/"+res.hash, B, nil).Status == 200
+					h := e.srv.HTTPPut("/cas/"+res.hash, B, nil)
+					if x1IsWatchdog(nil, h.Err) {
+						inconclusive("the second upload")
+						return
+					}
+					again = h.Status == 200
 				} else {
 					ctx, cancel := lib.Ctx()
 					resp, err := e.srv.CAS.BatchUpdateBlobs(ctx, &pb.BatchUpdateBlobsRequest{Requests: []*pb.BatchUpdateBlobsRequest_Request{{Digest: lib.DigestOf(B), Data: B}}})
+					wd := x1IsWatchdog(ctx, err)
 					cancel()
+					if wd {
+						inconclusive("the second upload")
+						return
+					}
 					again = err == nil && len(resp.Responses) == 1 && resp.Responses[0].GetStatus().GetCode() == 0
 				}
 				lib.WaitEvictionsDrained(e.srv.Cache, 5*time.Second)
 				time.Sleep(time.Millisecond)
 				p2 := e.srv.ProbeCAS(res.hash, res.size)
+				if x1ProbeWatchdog(p2.Errs) {
+					inconclusive("the probe after the second upload")
+					return
+				}
 				r.Count("reupload." + map[bool]string{true: "ack", false: "refused"}[again])
 				if !again {
 					r.Violation(key+":reupload-refused", "re-upload of an already stored valid blob was refused", detail)
@@ -662,16 +914,515 @@ func (e *c01Env) judge(cs c01Case, res c01Result, B []byte) {
 	}
 }
 
+// probeAfter probes every remembered digest on a re-opened instance: a refused upload must not have become
+// present, an acknowledged blob must still be present and readable with its bytes.
+func (e *c01Env) probeAfter(srv *lib.Server, what string) {
+	r := e.r
+	for _, a := range e.after {
+		p := srv.ProbeCAS(a.hash, a.size)
+		if x1ProbeWatchdog(p.Errs) {
+			r.Count("inconclusive.watchdog")
+			r.Inconclusive("C01 probe after " + what + ": watchdog context expired")
+			continue
+		}
+		present := p.FindMissingPresent || p.HeadStatus == 200 || p.GetStatus == 200
+		r.Eval()
+		key := fmt.Sprintf("C01:%s:%s:%s", a.cs.Path, a.cs.Storage, a.cs.Corr)
+		det := map[string]any{"case": a.cs, "declared_hash": a.hash, "declared_size": a.size, "reopened_as": srv.Opts.Storage, "probe_after_" + what: map[string]any{"findmissing_present": p.FindMissingPresent, "head": p.HeadStatus, "get": p.GetStatus, "get_len": len(p.GetBody)}}
+		if !a.acked && present {
+			r.Violation(key+":refused-but-present-after-"+what, fmt.Sprintf("upload that was refused left something behind: after a %s the claimed digest (%s,%d) is reported present (findmissing=%v head=%d get=%d)", what, a.hash, a.size, p.FindMissingPresent, p.HeadStatus, p.GetStatus), det)
+		}
+		if a.acked && (!(p.FindMissingPresent && p.HeadStatus == 200 && p.GetStatus == 200) || (a.B != nil && !bytes.Equal(p.GetBody, a.B))) {
+			r.Violation(key+":acked-lost-after-"+what, fmt.Sprintf("acknowledged blob (%s,%d) is not present/readable with its bytes after a %s (findmissing=%v head=%d get=%d, %d bytes)", a.hash, a.size, what, p.FindMissingPresent, p.HeadStatus, p.GetStatus, len(p.GetBody)), det)
+		}
+		r.Count(what + "-probe." + map[bool]string{true: "acked", false: "refused"}[a.acked])
+	}
+}
+
+// lateSplice asks the instance that re-opened the directory under the other storage mode to splice chunks which
+// were written before the re-open (so they are stored in the other on-disk format).
+func (e *c01Env) lateSplice(srv *lib.Server, chunks [][]byte, storage, impl string, ci int) {
+	r := e.r
+	var whole []byte
+	var cds []*pb.Digest
+	for _, c := range chunks {
+		whole = append(whole, c...)
+		cds = append(cds, lib.DigestOf(c))
+	}
+	req := &pb.SpliceBlobRequest{ChunkDigests: cds}
+	path := "splice-nodigest"
+	if (ci+int(r.Seed))%2 == 0 {
+		req.BlobDigest = lib.DigestOf(whole)
+		path = "splice"
+	}
+	cs := c01Case{ID: -1 - ci, Path: path, Corr: "chunks-from-other-mode", Storage: storage, Impl: impl, Size: len(whole), Content: "mixed"}
+	key := fmt.Sprintf("C01:%s:%s:%s", cs.Path, cs.Storage, cs.Corr)
+	ctx, cancel := lib.Ctx()
+	defer cancel()
+	resp, err := srv.CAS.SpliceBlob(ctx, req)
+	if x1IsWatchdog(ctx, err) {
+		r.Count("inconclusive.watchdog")
+		r.Inconclusive("C01 splice after the re-open: watchdog context expired")
+		return
+	}
+	r.Eval()
+	r.Distinct(cs.Path, cs.Storage, cs.Impl, cs.Corr, lib.SizeClassName(cs.Size))
+	r.Count(fmt.Sprintf("%s.%s.%s", cs.Path, cs.Corr, map[bool]string{true: "ack", false: "refused"}[err == nil]))
+	det := map[string]any{"case": cs, "chunk_sizes": []int{len(chunks[0]), len(chunks[1]), len(chunks[2])}, "instance_storage": srv.Opts.Storage, "status": lib.Code(err).String(),
+		"replay_note": "chunks are written through the disk API by the first instance (storage = case.Storage), the directory is re-opened in the other storage mode, then SpliceBlob"}
+	if err != nil {
+		r.Violation(key+":refused-valid", fmt.Sprintf("well-formed SpliceBlob of chunks written under the other storage mode was refused: %v", err), det)
+		return
+	}
+	d := lib.DigestOf(whole)
+	if resp.GetBlobDigest().GetHash() != d.Hash || resp.GetBlobDigest().GetSizeBytes() != d.SizeBytes {
+		r.Violation(key+":answered-digest-wrong", fmt.Sprintf("SpliceBlob answered digest (%s,%d) for content with digest (%s,%d)", resp.GetBlobDigest().GetHash(), resp.GetBlobDigest().GetSizeBytes(), d.Hash, d.SizeBytes), det)
+	}
+	p := srv.ProbeCAS(d.Hash, d.SizeBytes)
+	if x1ProbeWatchdog(p.Errs) {
+		r.Count("inconclusive.watchdog")
+		r.Inconclusive("C01 probe of the spliced blob: watchdog context expired")
+		return
+	}
+	if !(p.FindMissingPresent && p.HeadStatus == 200 && p.GetStatus == 200) {
+		r.Violation(key+":acked-not-present", fmt.Sprintf("spliced blob (%s,%d) not reported present/readable on every path: findmissing=%v head=%d get=%d", d.Hash, d.SizeBytes, p.FindMissingPresent, p.HeadStatus, p.GetStatus), det)
+	} else if !bytes.Equal(p.GetBody, whole) {
+		r.Violation(key+":acked-stored-wrong", fmt.Sprintf("spliced blob (%s,%d) reads back as %d bytes with digest %s", d.Hash, d.SizeBytes, len(p.GetBody), lib.Sha256Hex(p.GetBody)), det)
+	}
+	e.after = append(e.after, c01After{cs: cs, hash: d.Hash, size: d.SizeBytes, acked: true, B: whole})
+}
+
+// c01Item is one blob of a request that carries several.
+type c01Item struct {
+	Kind  string // what was done to it
+	Field string // multi-AR: stdout | stderr | file
+	B     []byte // true content
+	hash  string // claimed
+	size  int64
+	valid bool
+	acked bool
+	stat  string
+}
+
+// judgeItem applies the per-blob oracle: valid => acknowledged, present and readable with its bytes;
+// otherwise not acknowledged and the claimed digest absent. ackKnown=false: the request as a whole was refused
+// because of ANOTHER item, so nothing is demanded of a valid item.
+func (e *c01Env) judgeItem(path, storage, impl string, it *c01Item, demandAck bool, detail map[string]any) {
+	r := e.r
+	key := fmt.Sprintf("C01:%s:%s:%s", path, storage, it.Kind)
+	if it.Field != "" {
+		key = fmt.Sprintf("C01:%s:%s:%s:%s", path, storage, it.Field, it.Kind)
+	}
+	r.Eval()
+	r.Distinct(path, storage, impl, it.Field, it.Kind, lib.SizeClassName(len(it.B)))
+	r.Count(fmt.Sprintf("%s.%s.%s", path, it.Kind, map[bool]string{true: "ack", false: "refused"}[it.acked]))
+	det := map[string]any{"item_kind": it.Kind, "field": it.Field, "claimed_hash": it.hash, "claimed_size": it.size, "true_hash": lib.Sha256Hex(it.B), "true_size": len(it.B), "item_status": it.stat}
+	for k, v := range detail {
+		det[k] = v
+	}
+	if it.acked && !it.valid {
+		r.Violation(key+":acked-invalid", fmt.Sprintf("%s: item that does not match its declared digest was acknowledged (%s): kind=%s declared=(%s,%d) true=(%s,%d)", path, it.stat, it.Kind, it.hash, it.size, lib.Sha256Hex(it.B), len(it.B)), det)
+	}
+	if !it.acked && it.valid && demandAck {
+		r.Violation(key+":refused-valid", fmt.Sprintf("%s: well-formed item was refused (%s) in a request without any malformed item of its own", path, it.stat), det)
+	}
+	p := e.srv.ProbeCAS(it.hash, it.size)
+	if x1ProbeWatchdog(p.Errs) {
+		r.Count("inconclusive.watchdog")
+		r.Inconclusive("C01 " + path + ": watchdog context expired during the presence probe")
+		return
+	}
+	det["probe"] = map[string]any{"findmissing_present": p.FindMissingPresent, "head": p.HeadStatus, "get": p.GetStatus, "get_len": len(p.GetBody)}
+	present := p.FindMissingPresent || p.HeadStatus == 200 || p.GetStatus == 200
+	switch {
+	case it.acked && it.valid:
+		if !(p.FindMissingPresent && p.HeadStatus == 200 && p.GetStatus == 200) {
+			r.Violation(key+":acked-not-present", fmt.Sprintf("%s: acknowledged item (%s,%d) not reported present/readable on every path: findmissing=%v head=%d get=%d", path, it.hash, it.size, p.FindMissingPresent, p.HeadStatus, p.GetStatus), det)
+		} else if !bytes.Equal(p.GetBody, it.B) {
+			r.Violation(key+":acked-stored-wrong", fmt.Sprintf("%s: acknowledged item (%s,%d) reads back as %d bytes with digest %s", path, it.hash, it.size, len(p.GetBody), lib.Sha256Hex(p.GetBody)), det)
+		}
+	case !it.valid && present:
+		r.Violation(key+":refused-but-present", fmt.Sprintf("%s: item that does not match its digest (%s) left the claimed digest (%s,%d) present: findmissing=%v head=%d get=%d", path, it.stat, it.hash, it.size, p.FindMissingPresent, p.HeadStatus, p.GetStatus), det)
+	}
+	if it.valid && !it.acked {
+		return // nothing was promised about it, nothing to re-probe later
+	}
+	e.omu.Lock()
+	e.after = append(e.after, c01After{cs: c01Case{Path: path, Corr: strings.TrimPrefix(it.Field+":"+it.Kind, ":"), Storage: storage, Impl: impl, Size: len(it.B)}, hash: it.hash, size: it.size, acked: it.acked && it.valid, B: it.B})
+	e.omu.Unlock()
+}
+
+func c01ItemSize(rng *rand.Rand) int {
+	switch rng.IntN(10) {
+	case 0:
+		return 64*lib.KiB + 1
+	case 1:
+		return 4096
+	case 2:
+		return 4097
+	}
+	return 17 + rng.IntN(5000)
+}
+
+// multiBatch: BatchUpdateBlobs requests of 3-6 blobs mixing well-formed and malformed items, identity and zstd;
+// every item is judged by its own status and by the presence probe of its own digest.
+func (e *c01Env) multiBatch(rng *rand.Rand, storage, impl string, n, ci int) {
+	r := e.r
+	valids := []string{"valid-identity", "valid-zstd"}
+	bads := []string{"flip", "flip-zstd", "size+1", "size-1", "size+1-zstd", "bad-compressor", "z-garbage-after", "hashother", "trunc1-zstd", "ext1"}
+	for b := 0; b < n; b++ {
+		k := 3 + rng.IntN(4)
+		kinds := make([]string, k)
+		for i := range kinds {
+			if rng.IntN(2) == 0 {
+				kinds[i] = lib.Pick(rng, valids)
+			} else {
+				kinds[i] = lib.Pick(rng, bads)
+			}
+		}
+		// at least one of each, at random positions; batch b exercises bad kind b in turn
+		pv := rng.IntN(k)
+		pb2 := (pv + 1 + rng.IntN(k-1)) % k
+		kinds[pv] = valids[b%2]
+		kinds[pb2] = bads[(b+ci*n)%len(bads)]
+		items := make([]*c01Item, k)
+		req := &pb.BatchUpdateBlobsRequest{}
+		for i, kind := range kinds {
+			B := lib.GenBlob(rng, c01ItemSize(rng), lib.Pick(rng, lib.ContentKinds), fmt.Sprintf("C01-s%d-%s-%s-mb%d-%d", r.Seed, storage, impl, b, i))
+			it := &c01Item{Kind: kind, B: B, hash: lib.Sha256Hex(B), size: int64(len(B)), valid: kind == "valid-identity" || kind == "valid-zstd"}
+			data := B
+			z := strings.HasSuffix(kind, "-zstd") || kind == "z-garbage-after"
+			switch strings.TrimSuffix(kind, "-zstd") {
+			case "flip":
+				data, _ = corruptData(rng, B, "flip")
+			case "trunc1":
+				data, _ = corruptData(rng, B, "trunc1")
+			case "ext1":
+				data, _ = corruptData(rng, B, "ext1")
+			case "size+1":
+				it.size++
+			case "size-1":
+				it.size--
+			case "hashother":
+				it.hash = lib.Sha256Hex(append([]byte("other"), B...))
+			}
+			q := &pb.BatchUpdateBlobsRequest_Request{Digest: &pb.Digest{Hash: it.hash, SizeBytes: it.size}, Data: data}
+			if z {
+				q.Data, q.Compressor = zstdEncodeRand(rng, data), pb.Compressor_ZSTD
+				if kind == "z-garbage-after" {
+					q.Data = append(append([]byte(nil), q.Data...), 0xde, 0xad, 0xbe, 0xef, byte(rng.Uint32()))
+					ok, disagree := refDecodes(q.Data, B)
+					if ok {
+						it.valid = true // (both reference decoders accept it: then it is a well-formed upload)
+					}
+					if disagree {
+						it.Kind, q.Data, it.valid = "valid-zstd", zstdEncodeRand(rng, B), true // no agreed verdict on that stream: send a plain frame instead
+					}
+				}
+			}
+			if kind == "bad-compressor" {
+				q.Compressor = pb.Compressor_DEFLATE
+			}
+			items[i] = it
+			req.Requests = append(req.Requests, q)
+		}
+		ctx, cancel := lib.Ctx()
+		resp, err := e.srv.CAS.BatchUpdateBlobs(ctx, req)
+		wd := x1IsWatchdog(ctx, err)
+		cancel()
+		if wd {
+			r.Count("inconclusive.watchdog")
+			r.Inconclusive("C01 batch-multi: watchdog context expired during BatchUpdateBlobs")
+			continue
+		}
+		r.Count(fmt.Sprintf("batch-multi.requests.%d-items", k))
+		byDigest := map[string]codes.Code{}
+		if err == nil {
+			for _, rr := range resp.Responses {
+				byDigest[fmt.Sprintf("%s/%d", rr.GetDigest().GetHash(), rr.GetDigest().GetSizeBytes())] = codes.Code(rr.GetStatus().GetCode())
+			}
+		}
+		var shape []string
+		for _, it := range items {
+			shape = append(shape, fmt.Sprintf("%s(%d)", it.Kind, len(it.B)))
+		}
+		for i, it := range items {
+			c, ok := byDigest[fmt.Sprintf("%s/%d", it.hash, it.size)]
+			switch {
+			case err != nil:
+				it.stat = "rpc " + lib.Code(err).String()
+			case !ok:
+				it.stat = "no response for this digest"
+			default:
+				it.acked = c == codes.OK
+				it.stat = "blob " + c.String()
+			}
+			e.judgeItem("batch-multi", storage, impl, it, true, map[string]any{"batch": shape, "position": i, "seed_note": fmt.Sprintf("batch %d of config %s/%s; contents = lib.GenBlob(PCG(seed*104729+config index, 0xC01B) stream)", b, storage, impl)})
+		}
+	}
+}
+
+// multiAR: UpdateActionResult with stdout, stderr and 2-3 output files inlined in ONE request, some fields without a
+// digest (the server computes it), at most one field malformed. A request with a malformed field has to fail and
+// must not make that field's claimed digest present; a request with only well-formed fields has to succeed and
+// makes every inlined blob present.
+func (e *c01Env) multiAR(rng *rand.Rand, storage, impl string, n, ci int) {
+	r := e.r
+	bads := []string{"flip", "size+1", "size-1", "hashother", "ext1", "trunc1"}
+	for a := 0; a < n; a++ {
+		nf := 2 + rng.IntN(2)
+		fields := []string{"stdout", "stderr"}
+		for i := 0; i < nf; i++ {
+			fields = append(fields, "file")
+		}
+		bad := -1
+		if a%2 == 1 {
+			bad = rng.IntN(len(fields))
+		}
+		ar := &pb.ActionResult{ExitCode: int32(a)}
+		var items []*c01Item
+		for i, f := range fields {
+			B := lib.GenBlob(rng, c01ItemSize(rng), lib.Pick(rng, lib.ContentKinds), fmt.Sprintf("C01-s%d-%s-%s-mar%d-%d", r.Seed, storage, impl, a, i))
+			it := &c01Item{Kind: "valid", Field: f, B: B, hash: lib.Sha256Hex(B), size: int64(len(B)), valid: true}
+			data := B
+			nodigest := f != "file" && i != bad && rng.IntN(3) == 0
+			if nodigest {
+				it.Kind = "valid-nodigest"
+			}
+			if i == bad {
+				it.Kind, it.valid = bads[(a/2+ci*(n/2))%len(bads)], false
+				switch it.Kind {
+				case "flip", "ext1", "trunc1":
+					data, _ = corruptData(rng, B, it.Kind)
+				case "size+1":
+					it.size++
+				case "size-1":
+					it.size--
+				case "hashother":
+					it.hash = lib.Sha256Hex(append([]byte("other"), B...))
+				}
+			}
+			d := &pb.Digest{Hash: it.hash, SizeBytes: it.size}
+			if nodigest {
+				d = nil
+			}
+			switch f {
+			case "stdout":
+				ar.StdoutRaw, ar.StdoutDigest = data, d
+			case "stderr":
+				ar.StderrRaw, ar.StderrDigest = data, d
+			default:
+				ar.OutputFiles = append(ar.OutputFiles, &pb.OutputFile{Path: fmt.Sprintf("out/f%d", i), Digest: d, Contents: data, IsExecutable: rng.IntN(2) == 0})
+			}
+			items = append(items, it)
+		}
+		ctx, cancel := lib.Ctx()
+		ad := &pb.Digest{Hash: lib.RandHash(rng), SizeBytes: 42}
+		_, err := e.srv.AC.UpdateActionResult(ctx, &pb.UpdateActionResultRequest{ActionDigest: ad, ActionResult: ar})
+		wd := x1IsWatchdog(ctx, err)
+		cancel()
+		if wd {
+			r.Count("inconclusive.watchdog")
+			r.Inconclusive("C01 ac-inline-multi: watchdog context expired during UpdateActionResult")
+			continue
+		}
+		r.Count(fmt.Sprintf("ac-inline-multi.requests.%d-fields.%s", len(fields), map[bool]string{true: "all-valid", false: "one-malformed"}[bad < 0]))
+		var shape []string
+		for _, it := range items {
+			shape = append(shape, fmt.Sprintf("%s:%s(%d)", it.Field, it.Kind, len(it.B)))
+		}
+		for i, it := range items {
+			// the answer covers the request as a whole
+			it.acked = err == nil
+			it.stat = "update-ar " + lib.Code(err).String()
+			e.judgeItem("ac-inline-multi", storage, impl, it, bad < 0, map[string]any{"fields": shape, "position": i, "malformed_position": bad, "action_digest": ad.Hash})
+		}
+	}
+}
+
+// emptyDigest: uploads naming the digest of the empty blob. The empty blob is present by definition, so an upload
+// naming it is an upload of an already present blob: a well-formed one (no bytes / an empty zstd frame) must be
+// accepted; for one that carries bytes only the weak rule holds. After each of them the empty blob must still be
+// readable as zero bytes on every path.
+func (e *c01Env) emptyDigest(storage, impl string) {
+	r, srv := e.r, e.srv
+	emptyFrame := []byte{0x28, 0xb5, 0x2f, 0xfd, 0x20, 0x00, 0x01, 0x00, 0x00}
+	if ok, _ := refDecodes(emptyFrame, []byte{}); !ok {
+		r.Count("empty-digest.skipped-no-reference-frame")
+		return
+	}
+	h := lib.EmptySha256
+	one := []byte("x")
+	zone := lib.ZstdEncodeC(one, 3)
+	zgarb := append(append([]byte(nil), emptyFrame...), 0xde, 0xad, 0xbe, 0xef, 0x01)
+	type up struct {
+		path, kind string
+		do         func(ctx context.Context) (bool, string, error)
+	}
+	httpPut := func(body []byte, hdr map[string]string) func(context.Context) (bool, string, error) {
+		return func(context.Context) (bool, string, error) {
+			g := srv.HTTPPut("/cas/"+h, body, hdr)
+			return g.Err == nil && g.Status == 200, fmt.Sprintf("http %d %v", g.Status, g.Err), g.Err
+		}
+	}
+	batch := func(data []byte, c pb.Compressor_Value) func(context.Context) (bool, string, error) {
+		return func(ctx context.Context) (bool, string, error) {
+			resp, err := srv.CAS.BatchUpdateBlobs(ctx, &pb.BatchUpdateBlobsRequest{Requests: []*pb.BatchUpdateBlobsRequest_Request{{Digest: &pb.Digest{Hash: h}, Data: data, Compressor: c}}})
+			if err != nil || len(resp.Responses) != 1 {
+				return false, "rpc " + lib.Code(err).String(), err
+			}
+			c := codes.Code(resp.Responses[0].GetStatus().GetCode())
+			return c == codes.OK, "blob " + c.String(), nil
+		}
+	}
+	nth := 0
+	bs := func(z bool, data []byte) func(context.Context) (bool, string, error) {
+		return func(ctx context.Context) (bool, string, error) {
+			nth++
+			name := lib.ResUpload(fmt.Sprintf("00000000-0000-4000-8000-%012d", nth), h, 0)
+			if z {
+				name = lib.ResUploadZstd(fmt.Sprintf("00000000-0000-4000-8000-%012d", nth), h, 0)
+			}
+			_, err := srv.BSWriteMsgs(ctx, []*bspb.WriteRequest{{ResourceName: name, Data: data, FinishWrite: true}})
+			return err == nil, "bs " + lib.Code(err).String(), err
+		}
+	}
+	ac := func(field string) func(context.Context) (bool, string, error) {
+		return func(ctx context.Context) (bool, string, error) {
+			nth++
+			ar := &pb.ActionResult{ExitCode: 3}
+			switch field {
+			case "stdout":
+				ar.StdoutRaw, ar.StdoutDigest = one, &pb.Digest{Hash: h}
+			default:
+				ar.OutputFiles = []*pb.OutputFile{{Path: "o", Contents: one, Digest: &pb.Digest{Hash: h}}}
+			}
+			_, err := srv.AC.UpdateActionResult(ctx, &pb.UpdateActionResultRequest{ActionDigest: &pb.Digest{Hash: lib.Sha256Hex([]byte(fmt.Sprintf("empty-digest-ar-%s-%s-%d", storage, impl, nth))), SizeBytes: 11}, ActionResult: ar})
+			return err == nil, "update-ar " + lib.Code(err).String(), err
+		}
+	}
+	fetch := func(ctx context.Context) (bool, string, error) {
+		p := "/blob/empty-" + storage + "-" + impl
+		e.omu.Lock()
+		e.obody[p] = originEntry{body: []byte{}}
+		e.omu.Unlock()
+		defer func() { e.omu.Lock(); delete(e.obody, p); e.omu.Unlock() }()
+		raw, _ := hex.DecodeString(h)
+		resp, err := srv.Asset.FetchBlob(ctx, &asset.FetchBlobRequest{Uris: []string{e.origin.URL + p}, Qualifiers: []*asset.Qualifier{{Name: "checksum.sri", Value: "sha256-" + base64.StdEncoding.EncodeToString(raw)}}})
+		if err != nil {
+			return false, "fetch rpc " + lib.Code(err).String(), err
+		}
+		c := codes.Code(resp.GetStatus().GetCode())
+		if c == codes.OK && (resp.GetBlobDigest().GetHash() != h || resp.GetBlobDigest().GetSizeBytes() != 0) {
+			return true, fmt.Sprintf("fetch OK with digest (%s,%d)", resp.GetBlobDigest().GetHash(), resp.GetBlobDigest().GetSizeBytes()), nil
+		}
+		return c == codes.OK, "fetch " + c.String(), nil
+	}
+	zhdr := func() map[string]string {
+		return map[string]string{"Content-Encoding": "zstd", "X-Digest-SizeBytes": "0"}
+	}
+	ups := []up{
+		{"http-put", "none", httpPut([]byte{}, nil)},
+		{"http-put", "none-xsize", httpPut([]byte{}, map[string]string{"X-Digest-SizeBytes": "0"})},
+		{"http-put", "ext1", httpPut(one, map[string]string{"X-Digest-SizeBytes": "0"})},
+		{"http-put-zstd", "none", httpPut(emptyFrame, zhdr())},
+		{"http-put-zstd", "ext1", httpPut(zone, zhdr())},
+		{"http-put-zstd", "z-garbage-after", httpPut(zgarb, zhdr())},
+		{"batch", "none", batch([]byte{}, pb.Compressor_IDENTITY)},
+		{"batch", "ext1", batch(one, pb.Compressor_IDENTITY)},
+		{"batch-zstd", "none", batch(emptyFrame, pb.Compressor_ZSTD)},
+		{"batch-zstd", "ext1", batch(zone, pb.Compressor_ZSTD)},
+		{"batch-zstd", "z-garbage-after", batch(zgarb, pb.Compressor_ZSTD)},
+		{"bs-blobs", "none", bs(false, nil)},
+		{"bs-blobs", "ext1", bs(false, one)},
+		{"bs-zstd", "none", bs(true, emptyFrame)},
+		{"bs-zstd", "ext1", bs(true, zone)},
+		{"bs-zstd", "z-garbage-after", bs(true, zgarb)},
+		{"ac-inline-stdout", "ext1", ac("stdout")},
+		{"ac-inline-file", "ext1", ac("file")},
+		{"fetchblob", "none", fetch},
+	}
+	for _, u := range ups {
+		ctx, cancel := lib.Ctx()
+		acked, stat, err := u.do(ctx)
+		wd := x1IsWatchdog(ctx, err)
+		cancel()
+		if wd {
+			r.Count("inconclusive.watchdog")
+			r.Inconclusive("C01 empty-digest: watchdog context expired during the upload")
+			continue
+		}
+		key := fmt.Sprintf("C01:%s:%s:empty-digest:%s", u.path, storage, u.kind)
+		det := map[string]any{"path": u.path, "kind": u.kind, "storage": storage, "impl": impl, "status": stat, "digest": h + "/0",
+			"replay_note": "none = no bytes / the 9-byte empty zstd frame; ext1 = the byte 'x' (zstd: its frame) under the digest of the empty blob; z-garbage-after = empty frame + de ad be ef 01"}
+		r.Eval()
+		r.Distinct(u.path, storage, impl, "empty-digest", u.kind)
+		r.Count(fmt.Sprintf("empty-digest.%s.%s.%s", u.path, u.kind, map[bool]string{true: "ack", false: "refused"}[acked]))
+		if strings.HasPrefix(u.kind, "none") && !acked {
+			r.Violation(key+":refused-valid", fmt.Sprintf("well-formed upload of the empty blob was refused (%s): path=%s storage=%s", stat, u.path, storage), det)
+		}
+		if strings.HasPrefix(stat, "fetch OK with digest") {
+			r.Violation(key+":answered-digest-wrong", "FetchBlob of an empty origin body with the checksum of the empty blob: "+stat, det)
+		}
+		// whatever the answer: the empty blob stays readable as zero bytes on every path
+		if what := e.emptyUnreadable(); what == "watchdog" {
+			r.Count("inconclusive.watchdog")
+			r.Inconclusive("C01 empty-digest: watchdog context expired during the read-back")
+		} else if what != "" {
+			det["read_back"] = what
+			r.Violation(key+":empty-blob-unreadable", fmt.Sprintf("after an upload naming the empty digest (%s, %s) the empty blob is not readable as zero bytes: %s", u.kind, stat, what), det)
+		}
+	}
+}
+
+// emptyUnreadable reads the empty blob through every read path; "" = zero bytes everywhere.
+func (e *c01Env) emptyUnreadable() string {
+	srv := e.srv
+	ctx, cancel := lib.Ctx()
+	defer cancel()
+	h := lib.EmptySha256
+	var bad []string
+	p := srv.ProbeCAS(h, 0)
+	if x1ProbeWatchdog(p.Errs) {
+		return "watchdog"
+	}
+	if !p.FindMissingPresent || p.HeadStatus != 200 || p.GetStatus != 200 || len(p.GetBody) != 0 {
+		bad = append(bad, fmt.Sprintf("findmissing_present=%v head=%d get=%d (%d bytes)", p.FindMissingPresent, p.HeadStatus, p.GetStatus, len(p.GetBody)))
+	}
+	got, err := srv.BSRead(ctx, lib.ResBlobs(h, 0), 0, 0)
+	if x1IsWatchdog(ctx, err) {
+		return "watchdog"
+	}
+	if err != nil || len(got) != 0 {
+		bad = append(bad, fmt.Sprintf("bytestream read: %d bytes, %v", len(got), err))
+	}
+	resp, err := srv.CAS.BatchReadBlobs(ctx, &pb.BatchReadBlobsRequest{Digests: []*pb.Digest{{Hash: h}}})
+	if x1IsWatchdog(ctx, err) {
+		return "watchdog"
+	}
+	if err != nil || len(resp.Responses) != 1 || resp.Responses[0].GetStatus().GetCode() != 0 || len(resp.Responses[0].Data) != 0 {
+		bad = append(bad, fmt.Sprintf("batchread: err=%v resp=%v", err, resp))
+	}
+	return strings.Join(bad, "; ")
+}
+
 func runC01(r *lib.Run) {
 	r.SetRule("cases = write path x storage mode x zstd impl x corruption kind x size class x content kind, each with a fresh digest; quick: every (path x storage x corruption) at least once, sizes <= 1 MiB+1 plus a few multi-chunk; " +
-		"thorough: repeated over all size classes and both impls. distinct = (path, storage, impl, corruption, size class). expectation: valid => acknowledged and present+readable on 3 paths; otherwise error and claimed digest absent")
+		"thorough: repeated over all size classes and both impls. distinct = (path, storage, impl, corruption, size class). expectation: valid => acknowledged and present+readable on 3 paths; otherwise error and claimed digest absent. " +
+		"request spellings (instance prefix, trailing metadata, chunked PUT, explicit X-Digest-SizeBytes / Content-Encoding: identity) rotate over the cases, the well-formed upload runs once per spelling. " +
+		"per configuration additionally: BatchUpdateBlobs requests of 3-6 mixed items and ActionResults with 4-5 inlined fields (per-item oracle), uploads naming the empty digest, " +
+		"a re-open of the directory under the other storage mode (every remembered digest probed, one splice of chunks written before it) and a restart under the original mode")
 	r.Assume("validity of corrupted zstd streams is decided by two reference decoders (klauspost, libzstd); multi-frame / trailing-empty-frame / skippable-prefix streams carry only the weak obligation (ack => stored correctly)")
+	r.Assume("weak obligation only (ack => stored correctly / stored blob untouched): upper-case spelling of the right hash; zstd PUT without X-Digest-SizeBytes; uploads carrying bytes under the digest of the empty blob; " +
+		"uploads naming an already stored digest with other bytes on paths that may answer early for an existing blob (ByteStream.Write, SpliceBlob, FetchBlob)")
 	reps := r.N(1, 14)
 	rng := r.Rng("c01")
 	type cfg struct{ storage, impl string }
 	cfgs := []cfg{{"zstd", "go"}, {"uncompressed", "go"}, {"zstd", "cgo"}, {"uncompressed", "cgo"}}
 	id := 0
+	phases := map[string]map[string]float64{}
 	for ci, cf := range cfgs {
+		t0 := time.Now()
 		e := &c01Env{r: r, obody: map[string]originEntry{}, tiny: map[string]bool{}}
 		e.origin = httptest.NewServer(http.HandlerFunc(e.originHandler))
 		srv, err := lib.StartServer(lib.ServerOpts{Dir: lib.MkTemp("c01"), MaxSize: 64 << 30, Storage: cf.storage, ZstdImpl: cf.impl, AssetAPI: true})
@@ -705,8 +1456,18 @@ func runC01(r *lib.Run) {
 					if strings.HasPrefix(p, "ac-inline") && sz > 2*lib.MiB {
 						sz = lib.MiB + 1
 					}
+					if sz < 32 && (strings.HasPrefix(c, "pre:") || strings.HasPrefix(p, "splice")) {
+						sz = 4095 + rng.IntN(3) // not expressible on tiny blobs (chunks / stored twin need >= 32 bytes)
+					}
 					id++
 					cases = append(cases, c01Case{ID: id, Path: p, Corr: c, Storage: cf.storage, Impl: cf.impl, Size: sz, Content: lib.Pick(rng, lib.ContentKinds)})
+					if c == "none" {
+						// the well-formed upload once in every spelling of the request
+						for _, sh := range c01Shapes(p) {
+							id++
+							cases = append(cases, c01Case{ID: id, Path: p, Corr: c, Storage: cf.storage, Impl: cf.impl, Size: sizes[rng.IntN(8)], Content: lib.Pick(rng, lib.ContentKinds), Shape: sh}) // (<= 64 KiB+1: the spelling, not the size, is the point)
+						}
+					}
 				}
 			}
 		}
@@ -751,33 +1512,50 @@ func runC01(r *lib.Run) {
 			B := lib.GenBlob(crng, cs.Size, cs.Content, fmt.Sprintf("C01-s%d-c%d", r.Seed, cs.ID))
 			e.judge(cs, res, B)
 		}
-		// Restart on the same directory: a refused upload must not become present later either ("does not make the
-		// claimed digest present"), and every acknowledged blob must still be there and readable.
+		// The slices that send several items in one request, and the empty digest.
+		srng := rand.New(rand.NewPCG(uint64(r.Seed)*104729+uint64(ci), 0xC01B))
+		t1 := time.Now()
+		e.multiBatch(srng, cf.storage, cf.impl, r.N(4, 60), ci)
+		e.multiAR(srng, cf.storage, cf.impl, r.N(4, 60), ci)
+		e.emptyDigest(cf.storage, cf.impl)
+		t2 := time.Now()
+		// chunks for a splice that will be requested after the directory has been re-opened in the other storage mode
+		var lateChunks [][]byte
+		for i := 0; i < 3; i++ {
+			c := lib.GenBlob(srng, []int{300, 70000, lib.MiB + 5}[i], lib.Pick(srng, lib.ContentKinds), fmt.Sprintf("C01-s%d-cfg%d-late%d", r.Seed, ci, i))
+			ctx, cancel := lib.Ctx()
+			err := srv.Cache.Put(ctx, cache.CAS, lib.Sha256Hex(c), int64(len(c)), bytes.NewReader(c))
+			cancel()
+			if err != nil {
+				lateChunks = nil
+				break
+			}
+			lateChunks = append(lateChunks, c)
+		}
+		// Re-open the directory once under the OTHER storage mode: what was acknowledged must be readable by an
+		// instance that stores differently, what was refused must not appear; then restart under the original mode.
+		// "does not make the claimed digest present" / "thereafter reported present and readable until evicted".
 		dir := srv.Dir
 		srv.Close()
-		srv2, err := lib.StartServer(lib.ServerOpts{Dir: dir, MaxSize: 64 << 30, Storage: cf.storage, ZstdImpl: cf.impl, AssetAPI: true})
-		if err != nil {
-			r.Violation("C01:restart-failed:"+cf.storage, "restart on the directory after the upload cases failed: "+err.Error(), nil)
-		} else {
+		other := map[string]string{"zstd": "uncompressed", "uncompressed": "zstd"}[cf.storage]
+		for pass, mode := range []string{other, cf.storage} {
+			what := []string{"reopen-other-mode", "restart"}[pass]
+			srv2, err := lib.StartServer(lib.ServerOpts{Dir: dir, MaxSize: 64 << 30, Storage: mode, ZstdImpl: cf.impl, AssetAPI: true})
+			if err != nil {
+				r.Violation("C01:"+what+"-failed:"+cf.storage, what+" on the directory after the upload cases failed: "+err.Error(), nil)
+				break
+			}
 			e.srv = srv2
-			for _, a := range e.after {
-				p := srv2.ProbeCAS(a.hash, a.size)
-				present := p.FindMissingPresent || p.HeadStatus == 200 || p.GetStatus == 200
-				r.Eval()
-				key := fmt.Sprintf("C01:%s:%s:%s", a.cs.Path, a.cs.Storage, a.cs.Corr)
-				det := map[string]any{"case": a.cs, "declared_hash": a.hash, "declared_size": a.size, "probe_after_restart": map[string]any{"findmissing_present": p.FindMissingPresent, "head": p.HeadStatus, "get": p.GetStatus}}
-				if !a.acked && present {
-					r.Violation(key+":refused-but-present-after-restart", fmt.Sprintf("upload that was refused left something behind: after a restart the claimed digest (%s,%d) is reported present (findmissing=%v head=%d get=%d)", a.hash, a.size, p.FindMissingPresent, p.HeadStatus, p.GetStatus), det)
-				}
-				if a.acked && (!(p.FindMissingPresent && p.HeadStatus == 200 && p.GetStatus == 200) || (a.B != nil && !bytes.Equal(p.GetBody, a.B))) {
-					r.Violation(key+":acked-lost-after-restart", fmt.Sprintf("acknowledged blob (%s,%d) is not present/readable after a restart (findmissing=%v head=%d get=%d)", a.hash, a.size, p.FindMissingPresent, p.HeadStatus, p.GetStatus), det)
-				}
-				r.Count("restart-probe." + map[bool]string{true: "acked", false: "refused"}[a.acked])
+			e.probeAfter(srv2, what)
+			if pass == 0 && lateChunks != nil {
+				e.lateSplice(srv2, lateChunks, cf.storage, cf.impl, ci)
 			}
 			srv2.Close()
 		}
 		_ = removeAll(dir)
 		e.origin.Close()
+		phases[cf.storage+"/"+cf.impl] = map[string]float64{"cases": t1.Sub(t0).Seconds(), "multi-item+empty-digest": t2.Sub(t1).Seconds(), "reopen+restart": time.Since(t2).Seconds()}
+		r.Extra("phase_wall_s", phases)
 	}
 }
 
